@@ -2,6 +2,7 @@ package main
 
 import (
 	"fmt"
+	"go/token"
 	"go/types"
 	"sort"
 	"strings"
@@ -149,6 +150,7 @@ func (ex *Exec) record(st *State, ob *Obligation) {
 		ob.Result = "folded"
 	} else {
 		ob.PC = append([]*Term(nil), st.PC...)
+		ob.Snap = ex.snapshot(st, ob.Kind == "post" || ob.Kind == "frame")
 	}
 	ex.Obls = append(ex.Obls, ob)
 }
@@ -498,7 +500,65 @@ func (ex *Exec) havocLoop(st *State, fr *Frame, lp *Loop) {
 		if hint == "" {
 			hint = "loopvar"
 		}
-		fr.Locals[phi] = ex.G.Fresh(phi.Type(), hint)
+		entryVal := fr.Locals[phi]
+		nv := ex.G.Fresh(phi.Type(), hint)
+		fr.Locals[phi] = nv
+		// monotone counters: a phi that starts at v0 and is only ever incremented by a positive constant
+		// stays >= v0 (assuming the counter does not overflow: it is bounded by a length <= 2^40)
+		if isInteger(phi.Type()) {
+			mono := true
+			for i, e := range phi.Edges {
+				if !lp.Body[lp.Header.Preds[i]] {
+					continue
+				}
+				b, ok := e.(*ssa.BinOp)
+				if !ok || b.Op != token.ADD || b.X != ssa.Value(phi) {
+					mono = false
+					break
+				}
+				c, ok := b.Y.(*ssa.Const)
+				if !ok || c.Value == nil || c.Int64() <= 0 {
+					mono = false
+					break
+				}
+			}
+			if mono {
+				if ev, ok := entryVal.(*Term); ok {
+					if nt, ok := nv.(*Term); ok {
+						st.Assume(Ge(nt, ev))
+						// guarded counters: when the header test is `phi+c < bound` with a loop-invariant bound and the
+						// back-edge value is that same phi+c, every value after the first satisfied the guard
+						if iff, ok := lp.Header.Instrs[len(lp.Header.Instrs)-1].(*ssa.If); ok {
+							if cmp, ok := iff.Cond.(*ssa.BinOp); ok && cmp.Op == token.LSS {
+								next, ok1 := cmp.X.(*ssa.BinOp)
+								allNext := ok1
+								if ok1 {
+									for i, e := range phi.Edges {
+										if lp.Body[lp.Header.Preds[i]] && e != ssa.Value(next) {
+											allNext = false
+										}
+									}
+								}
+								invariantBound := false
+								switch b := cmp.Y.(type) {
+								case *ssa.Const:
+									invariantBound = true
+								case ssa.Instruction:
+									invariantBound = !lp.Body[b.Block()]
+								case *ssa.Parameter:
+									invariantBound = true
+								}
+								if allNext && invariantBound && lp.Body[lp.Header.Succs[0]] {
+									if bv, ok := ex.eval(fr, cmp.Y).(*Term); ok && bv.Sort == SInt {
+										st.Assume(Or(Eq(nt, ev), Lt(nt, bv)))
+									}
+								}
+							}
+						}
+					}
+				}
+			}
+		}
 	}
 	ws := ex.loopWriteSet(fr.Fn, lp)
 	var objs []*Object
